@@ -506,6 +506,26 @@ impl Machine {
         if nfresh > 0 || name == "m_extend" {
             data = Some(d.clone());
         }
+        // destination of copy_to_slice (allocated outside the window: not the crate's allocation)
+        let mut cdst: Vec<u8> = if name.ends_with("_copy_to_slice") { vec![0u8; x.min(1 << 16)] } else { Vec::new() };
+        // m_extend mode 13: text written one character at a time (fmt::Write::write_char and `{}` of a char),
+        // one-, two- (Latin-1 and above) and three-byte characters; expected = std's UTF-8 encoding
+        let mut wchars: Vec<char> = Vec::new();
+        if name == "m_extend" && op.mode == 13 {
+            wchars = d
+                .iter()
+                .map(|&b| {
+                    char::from_u32(match b % 4 {
+                        0 => 0x30 + b as u32 % 64,
+                        1 => 0x80 + b as u32,
+                        2 => 0x100 + b as u32 * 7,
+                        _ => 0x800 + b as u32 * 31,
+                    })
+                    .unwrap_or('?')
+                })
+                .collect();
+            data = Some(wchars.iter().collect::<String>().into_bytes());
+        }
         self.hs.reserve(2);
         self.owners.reserve(1);
         newids.reserve(2);
@@ -714,6 +734,15 @@ impl Machine {
                     H::B(b) => b.advance(x),
                     _ => unreachable!(),
                 },
+                // Buf::copy_to_slice on the handle itself (the provided method for Bytes / BytesMut)
+                "b_copy_to_slice" | "m_copy_to_slice" => {
+                    match self.hs[h].as_mut().unwrap() {
+                        H::B(b) => b.copy_to_slice(&mut cdst),
+                        H::M(m) => m.copy_to_slice(&mut cdst),
+                        _ => unreachable!(),
+                    }
+                    data = Some(std::mem::take(&mut cdst));
+                }
                 "b_into_vec" => {
                     let b = match self.hs[h].take().unwrap() {
                         H::B(b) => b,
@@ -825,6 +854,16 @@ impl Machine {
                                 use std::fmt::Write as _;
                                 write!(m, "{}{}", std::str::from_utf8(&d[..d.len() / 2]).unwrap(), std::str::from_utf8(&d[d.len() / 2..]).unwrap()).unwrap()
                             }
+                            13 => {
+                                use std::fmt::Write as _;
+                                for (i, c) in wchars.iter().enumerate() {
+                                    if i % 2 == 0 {
+                                        write!(m, "{}", c).unwrap()
+                                    } else {
+                                        m.write_char(*c).unwrap()
+                                    }
+                                }
+                            }
                             10 => {
                                 let mut it = d.iter().copied();
                                 m.extend(std::iter::repeat(()).take(usize::MAX).map_while(move |_| it.next()))
@@ -839,7 +878,8 @@ impl Machine {
                     }
                 }
                 "m_put_bytes" => match self.hs[h].as_mut().unwrap() {
-                    H::M(m) => m.put_bytes(op.val, x.min(4096)),
+                    // (counts that are not representable are passed on as they are: the call must panic)
+                    H::M(m) => m.put_bytes(op.val, if x > usize::MAX / 2 { x } else { x.min(4096) }),
                     _ => unreachable!(),
                 },
                 "m_fill_spare" => match self.hs[h].as_mut().unwrap() {
